@@ -14,7 +14,7 @@ sample(X, y, quantity, sample_at_X, weights, n_draws, n_bootstraps, objective):
   _sample_coef:  not fitted                         → AttributeError
                  n_bootstraps < 1, n_draws < 1      → ValueError
                  check_y / check_X / check_X_y / weights (property C11; here the flag `dataOk`)
-    bootstraps = [(coef_, load_diagonal(cov))] ++ (n_bootstraps - 1 refits)
+    bootstraps = [(coef_, load_diagonal(cov, sqrt(eps) * diag(cov)))] ++ (n_bootstraps - 1 refits, loaded alike)
     idx        = np.random.choice(np.arange(len(bootstraps)), size=n_draws, replace=True)
     for b in order of first appearance in idx:
         coef_draws[positions of b] = np.random.multivariate_normal(coef_b, cov_b, size=#positions of b)
@@ -81,14 +81,28 @@ def pow2 : Nat → α
 /-- `np.sqrt(np.finfo(np.float64).eps)` = `sqrt(2^-52)` = `2^-26` -/
 def sqrtEpsMach : α := 1 / pow2 26
 
-/-- `load_diagonal(cov, load)`: `cov + np.eye(n) * load` -/
+/-- `load_diagonal(cov, load)` with a scalar `load`: `cov + np.eye(n) * load` -/
 def loadDiagonal (load : α) (cov : Nat → Nat → α) : Nat → Nat → α :=
   fun i j => cov i j + ident i j * load
 
+/-- `load_diagonal(cov, load)` with a vector `load` (NumPy broadcasts it along the columns of `np.eye(n)`):
+entry `(i, j)` is `cov[i, j] + eye[i, j] * load[j]` -/
+def loadDiagonalVec (load : Nat → α) (cov : Nat → Nat → α) : Nat → Nat → α :=
+  fun i j => cov i j + ident i j * load j
+
+/-- `np.sqrt(EPS) * np.diag(cov)`: the loading of `_bootstrap_samples_of_smoothing`, relative to the variance of each
+coefficient -/
+def relLoad (cov : Nat → Nat → α) : Nat → α := fun j => sqrtEpsMach * cov j j
+
+/-- `load_diagonal(cov, load=np.sqrt(EPS) * np.diag(cov))` = `cov + √ε · diag(cov)`: the covariance handed to the MVN
+generator -/
+def loadedCov (cov : Nat → Nat → α) : Nat → Nat → α := loadDiagonalVec (relLoad cov) cov
+
 /-- `coef_bootstraps`, `cov_bootstraps` of `_bootstrap_samples_of_smoothing`: the fitted model first, then the
-`n_bootstraps - 1` refits (`extra`, results of `gridsearch` + `fit` on simulated responses: oracle input) -/
+`n_bootstraps - 1` refits (`extra`, results of `gridsearch` + `fit` on simulated responses, with their covariance
+loaded in the same way: oracle input) -/
 def bootstraps (coef : Nat → α) (cov : Nat → Nat → α) (extra : List (Boot α)) : List (Boot α) :=
-  ⟨coef, loadDiagonal sqrtEpsMach cov⟩ :: extra
+  ⟨coef, loadedCov cov⟩ :: extra
 
 end load
 
@@ -188,4 +202,73 @@ def sample (g : Gens α) (s : SampleIn α) (quantity : Option Quantity) (fitted 
           | none => .error .typeError
 
 end pipeline
+
+/-! ## histories of calls on one model object
+
+`GAM.sample` keeps nothing between calls: everything it reads from the object (`coef_`, `statistics_['cov']`, link,
+distribution, scale — written by `fit`) is in `FitRec`; everything else comes with the call (`SampleCall`: the generator
+results, the arguments, the model-matrix rows at the contents `X` / `sample_at_X` have **when the call is made**).
+A history is a list of public operations on one object; only `fit` changes the state. -/
+
+/-- what `fit` leaves on the object and `sample` reads -/
+structure FitRec (α : Type) where
+  m : Nat
+  coef : Nat → α
+  cov : Nat → Nat → α
+  link : LinkKind
+  fam : Family
+  levels : α
+  scale : Option α
+
+/-- one `sample(...)` call: generator results, arguments, and the rows of the model matrix at the current contents of
+the arrays passed -/
+structure SampleCall (α : Type) where
+  g : Gens α
+  quantity : Option Quantity
+  nBoot : Int
+  nDraws : Int
+  dataOk : Bool
+  rowsX : List (Nat → α)
+  rowsAt : Option (List (Nat → α))
+  extra : List (Boot α)
+
+/-- public operations of a history -/
+inductive HistOp (α : Type)
+  | fit (r : FitRec α)
+  | sample (c : SampleCall α)
+  /-- `predict(X)` (and every other read-only method): no effect on what `sample` reads -/
+  | predict (rows : List (Nat → α))
+
+section history
+variable [Zero α] [One α] [Add α] [Sub α] [Mul α] [Div α] [Neg α] [LE α] [DecidableLE α]
+  [ExpLog α] [HasLogSqrt α]
+
+/-- the input record of one call in a given object state (`none` = never fitted: the record is irrelevant, the call
+is rejected with `AttributeError` unless the quantity is unknown) -/
+def SampleCall.input (c : SampleCall α) (st : Option (FitRec α)) : SampleIn α :=
+  match st with
+  | some r => { m := r.m, coef := r.coef, cov := r.cov, link := r.link, fam := r.fam, levels := r.levels,
+                scale := r.scale, rowsX := c.rowsX, rowsAt := c.rowsAt, extra := c.extra }
+  | none => { m := 0, coef := fun _ => 0, cov := fun _ _ => 0, link := .identity, fam := .normal, levels := 1,
+              scale := none, rowsX := c.rowsX, rowsAt := c.rowsAt, extra := c.extra }
+
+/-- the result of one call in a given object state -/
+def SampleCall.result (c : SampleCall α) (st : Option (FitRec α)) : Except SampleErr (List (List α)) :=
+  sample c.g (c.input st) c.quantity st.isSome c.nBoot c.nDraws c.dataOk
+
+/-- the object state after a history: the record of the latest `fit` -/
+def stateAfter (st : Option (FitRec α)) : List (HistOp α) → Option (FitRec α)
+  | [] => st
+  | .fit r :: ops => stateAfter (some r) ops
+  | .sample _ :: ops => stateAfter st ops
+  | .predict _ :: ops => stateAfter st ops
+
+/-- the results of the `sample` calls of a history, in order -/
+def runHistory (st : Option (FitRec α)) : List (HistOp α) → List (Except SampleErr (List (List α)))
+  | [] => []
+  | .fit r :: ops => runHistory (some r) ops
+  | .sample c :: ops => c.result st :: runHistory st ops
+  | .predict _ :: ops => runHistory st ops
+
+end history
 end PyGam
